@@ -384,6 +384,32 @@ def replay(tname, steps):
     return None
 
 
+def reset_clears_everything(chk):
+    """[O] reset() leaves nothing behind whatever the sensitivity holds - also values an earlier, failed cycle left there
+    (overflowed exponentials: inf / nan). Allocated sensitivities are zeroed in place, others dropped."""
+    import pymoto as pym
+    import warnings
+    for dt in (float, complex):
+        for bad in (np.inf, -np.inf, np.nan):
+            for keep in (None, True, False):
+                x = np.arange(4, dtype=dt)
+                buf = np.zeros(4, dtype=dt)
+                s = pym.Signal("x", x, buf) if keep is not False else pym.Signal("x", x)
+                with warnings.catch_warnings():
+                    warnings.simplefilter("ignore")
+                    s.add_sensitivity(np.array([1.0, bad, 2.0, 0.0], dtype=dt))
+                    if keep is None:
+                        s.reset()
+                    else:
+                        s.reset(keep_alloc=keep)
+                    s.add_sensitivity(np.ones(4, dtype=dt))
+                chk.count()
+                got = np.asarray(s.sensitivity)
+                if got.shape != (4,) or not np.array_equal(got, np.ones(4, dtype=dt)):
+                    chk.violation("C03/reset/non-finite", "a sensitivity holding %s (%s, keep_alloc=%s) is not cleared by reset(): the next contribution gives %s"
+                                  % (bad, dt.__name__, keep, got.tolist()), {"bad": str(bad), "dtype": dt.__name__, "keep_alloc": keep})
+
+
 def _replay_chunk(arg):
     tname, behs = arg
     return [(tname, replay(tname, b)) for b in behs]
@@ -457,6 +483,7 @@ def run(chk, replay=None):
                 i, kind, what = res
                 chk.violation("C03/%s/%s" % (tname.split("(")[0] if not tname.startswith("mod:") else tname.split("/")[0], kind), "%s: %s" % (tname, what), dict(case, steps=b[:i + 1], failing_step=i))
     chk.extra["templates"] = list(TEMPLATES) + gnames
+    reset_clears_everything(chk)
 
 
 replay_fn = replay
